@@ -305,18 +305,27 @@ def c_target_setter(P):
     clo._nohook = True
     kind, res = outcome(P, lambda: P.call_closure(clo, [al, value], {}))
     if kind == "raise":
-        P.prove("raises_only_CyclicAliasError_on_self_target", z3.And(z3.Or(same, same_path), P.resolve_cls(res) == "CyclicAliasError"), exc=P.resolve_cls(res))
-        P.prove("target_unchanged_on_error", al.fields["_target"] is old_target)
+        cname = P.resolve_cls(res)
+        if al.fields["_target"] is old_target:
+            P.prove("raises_only_CyclicAliasError_on_self_target", z3.And(z3.Or(same, same_path), cname == "CyclicAliasError"), exc=cname)
+            P.cover("target_setter.refused")
+            return
+        # the new target was stored and registering the alias failed: possible only when the value is itself an alias whose own chain is broken
+        # (an Alias has no table of aliases, the registration goes to its final target); the guard against self-targeting was passed
+        P.prove("never_targets_itself", z3.And(z3.Not(same), z3.Not(same_path)))
+        P.prove("registration_fails_only_for_a_broken_alias_chain", P.resolve_cls(value) == "Alias" and cname in ("AliasResolutionError", "CyclicAliasError"), exc=cname)
+        P.cover("target_setter.broken_chain")
         return
     P.prove("never_targets_itself", z3.And(z3.Not(same), z3.Not(same_path)))
     P.prove("target_stored", P.identical(al.fields["_target"], value))
     P.prove("target_path_updated", zstr(al.fields["target_path"]) == H.path_of(value))
     par = P.getattr(al, "_parent")
     has_parent = z3.Not(zbool(P.identical(par, None)))
-    als = P.getattr(value, "aliases")
-    key = SStr(H.path_of(al))
-    listed = z3.And(zbool(models.map_has(P, als, key)), zbool(P.identical(models.map_get(P, als, key), al)) if P.branch(models.map_has(P, als, key)) else False)
-    P.prove("listed_among_target_aliases_under_own_path", z3.Implies(has_parent, listed))
+    if P.branch(has_parent):
+        als = P.getattr(value, "aliases")
+        key = SStr(H.path_of(al))
+        listed = z3.And(zbool(models.map_has(P, als, key)), zbool(P.identical(models.map_get(P, als, key), al)) if P.branch(models.map_has(P, als, key)) else False)
+        P.prove("listed_among_target_aliases_under_own_path", listed)
     P.cover("target_setter")
 
 
@@ -343,7 +352,12 @@ def c_parent_setter(P):
         return
     P.prove("parent_stored", P.identical(al.fields["_parent"], newp))
     if al.fields["_target"] is not None:
-        als = P.getattr(target, "aliases")
+        k2, als = outcome(P, lambda: P.getattr(target, "aliases"))
+        if k2 != "ok":
+            # the target is itself an alias whose chain is broken: there is no table to be listed in
+            P.prove("no_table_only_for_a_broken_alias_chain", P.resolve_cls(target) == "Alias" and P.resolve_cls(als) in ("AliasResolutionError", "CyclicAliasError"))
+            P.cover("parent_setter.broken_chain")
+            return
         key = SStr(H.path_of(al))   # path in the new heap version (current path)
         present = models.map_has(P, als, key)
         P.prove("listed_under_current_path", present)
